@@ -109,7 +109,30 @@ func (eng *Engine) declOf(f *types.Func) *ast.FuncDecl {
 	return nil
 }
 
-func (eng *Engine) hookDelete(fc *FnCtx, st *State, call *ast.CallExpr, m, k Val) {}
+// hookDelete: ownership obligations on registry maps (`deletepre field: expr`): every delete from a map held in a
+// field of that name, anywhere in the dynamic extent of the function under verification (inlined callees
+// included), must satisfy the clause ($key = deleted key, $map = the map, $present = key is in the map).
+func (eng *Engine) hookDelete(fc *FnCtx, st *State, call *ast.CallExpr, m, k Val) {
+	r := fc.root()
+	if r.ct == nil || len(r.ct.DeletePre) == 0 {
+		return
+	}
+	se, ok := ast.Unparen(call.Args[0]).(*ast.SelectorExpr)
+	if !ok {
+		return
+	}
+	mt, ok := m.Ty.Underlying().(*types.Map)
+	if !ok {
+		return
+	}
+	dk, ds, _, _ := fc.mapKeys(mt)
+	present := Val{sel(sel(fc.comp(st, dk, ds), m.T), k.T), types.Typ[types.Bool]}
+	for i, cl := range r.ct.DeletePre[se.Sel.Name] {
+		env := &SpecEnv{fc: r, st: st, old: r.entry, scope: map[string]Val{"$key": k, "$map": m, "$present": present}, oldScope: r.paramsEntry, pkg: r.ctPkg(), useVars: true, outermost: true}
+		g := r.safeSpec(env, cl.E, cl.Text)
+		fc.assertNamed(st, "own", "delete."+se.Sel.Name+"."+clauseName(cl, i), g.T, "whenever an entry of "+se.Sel.Name+" is deleted: "+cl.Text, call.Pos())
+	}
+}
 
 // loadContracts reads the contract file of each loaded package (in-repo file first, mirror as fallback)
 func (eng *Engine) loadContracts() error {
